@@ -35,14 +35,16 @@ var (
 type world struct {
 	lastTick time.Time
 	tainted  bool
-	r         *hx.Run
-	s         *stack.Stack
-	l         *netsim.Link
-	start     time.Time
-	sl        sleep.Sleeper
-	wk        []*sleep.Waker
-	deadlines []int // ms since start that must not be sampled closely
-	ep        tcpip.Endpoint
+	// time of the last clock sample given to the model
+	lastTickMs int
+	r          *hx.Run
+	s          *stack.Stack
+	l          *netsim.Link
+	start      time.Time
+	sl         sleep.Sleeper
+	wk         []*sleep.Waker
+	deadlines  []int // ms since start that must not be sampled closely
+	ep         tcpip.Endpoint
 }
 
 func (w *world) nowMs() int { return int(time.Since(w.start) / time.Millisecond) }
@@ -128,7 +130,18 @@ func (w *world) tick() {
 	}
 	t := w.settle()
 	w.lastTick = time.Now()
+	w.lastTickMs = t
 	w.r.Emit(fmt.Sprintf("t %d", t), w.outs())
+}
+
+// noteBulk: entries added without a clock sample of their own carry, in the model, the time of the last sample, and in
+// the implementation a time up to now: their expiry lies somewhere in between - keep the clock samples away from the
+// whole interval
+func (w *world) noteBulk() {
+	for d := w.lastTickMs; d <= w.nowMs()+1; d += 10 {
+		w.deadlines = append(w.deadlines, d+ageMs)
+	}
+	w.deadlines = append(w.deadlines, w.nowMs()+1+ageMs)
 }
 
 // late: the operation ran noticeably later than the clock sample the model gets for it (the process was
@@ -380,6 +393,7 @@ func Gen(r *hx.Run) {
 			w.s.AddLinkAddress(1, tcpip.Address(a), tcpip.LinkAddress(m))
 			w.r.Emit(fmt.Sprintf("add 1 %s %s", hx.Hex(a), hx.Hex(m)), "wake:0")
 		}
+		w.noteBulk()
 		w.tick()
 		for k := 0; k < 40; k++ {
 			i := r.R.Intn(total)
@@ -399,6 +413,7 @@ func Gen(r *hx.Run) {
 			w.s.AddLinkAddress(1, tcpip.Address(a), tcpip.LinkAddress(m))
 			w.r.Emit(fmt.Sprintf("add 1 %s %s", hx.Hex(a), hx.Hex(m)), "wake:0")
 		}
+		w.noteBulk()
 	}
 	for round := 0; round < r.Pick(1, 3); round++ {
 		// (a) overwrite, then wrap onto the stale record
@@ -410,6 +425,7 @@ func Gen(r *hx.Run) {
 			w.s.AddLinkAddress(1, tcpip.Address([]byte{10, 3, 0, byte(v)}), tcpip.LinkAddress([]byte{2, 3, 0, 0, 0, byte(v)}))
 			w.r.Emit(fmt.Sprintf("add 1 %s %s", hx.Hex([]byte{10, 3, 0, byte(v)}), hx.Hex([]byte{2, 3, 0, 0, 0, byte(v)})), "wake:0")
 		}
+		w.noteBulk()
 		mid := 300 + r.R.Intn(150)
 		bulk(first, mid)
 		w.tick()
@@ -429,8 +445,8 @@ func Gen(r *hx.Run) {
 		fill := 470 + r.R.Intn(35)
 		bulk(0, fill)
 		w.sleepMs(ageMs + 60)
-		w.get(k) // incomplete entry in a fresh slot, a waiter registered
-		bulk(fill, 512-fill+r.R.Intn(6)) // wraps onto the neighbour's expired old record
+		w.get(k)                           // incomplete entry in a fresh slot, a waiter registered
+		bulk(fill, 512-fill+r.R.Intn(6))   // wraps onto the neighbour's expired old record
 		w.add(k, []byte{2, 3, 1, 1, 1, 2}) // the answer: the waiter must be woken
 		w.get(k)
 		w.sleepMs(attempts*timeoutMs + 50)
